@@ -267,6 +267,16 @@ def r2_first_match(ctx):
             r.viol("R2:%s#order" % name, "branches are generated from `%s.%s` (must be ranges.iter() with no reordering/filtering adaptor)" % (base, ".".join(meths)), file=fn.file, line=fn.line)
         else:
             r.inst(name, "ranges.%s -> arms in declaration order" % ".".join(meths))
+        if not name.endswith("_string"):
+            # the view closure is `move ||` and reads the count inside: the count is cloned in front of it, so that another range / plural or
+            # a `{{ count }}` next to this one can still use it (`$t(apples) and $t(pears)` would not compile otherwise)
+            qm = [tok_text(q["tokens"]) for q in xquotes(fn.body) if "move ||" in tok_text(q["tokens"])]
+            if not qm:
+                r.viol("R2:%s#closure" % name, "the template with the `move ||` closure was not found", file=fn.file, line=fn.line)
+            elif not all("let#count_key=core::clone::Clone::clone(&#count_key);" in t_.split("move ||")[0].replace(" ", "") or "let#count_key=Clone::clone(&#count_key);" in t_.split("move ||")[0].replace(" ", "") for t_ in qm):
+                r.viol("R2:%s#count-moved" % name, "the count is not cloned in front of the `move ||` closure that reads it: a second use of the same count next to this range does not compile", file=fn.file, line=fn.line)
+            else:
+                r.inst(name + "#count-cloned", "let #count_key = Clone::clone(&#count_key); before the move closure")
         if "floats" in name:
             # first `if`, the rest chained with else, in iterator order
             qs = [tok_text(q["tokens"]) for q in xquotes(fn.body)]
